@@ -160,7 +160,7 @@ def check_digest(realm, username=None):
     """
     def wrapper(fun):
         @wraps(fun)
-        def handler(req):
+        def handler(req, *args, **kwargs):
             if 'Authorization' not in req.headers:
                 log.info('Digest: Authorization header not found')
                 raise HTTPException(state.HTTP_UNAUTHORIZED, realm=realm)
@@ -180,7 +180,7 @@ def check_digest(realm, username=None):
                 raise HTTPException(state.HTTP_UNAUTHORIZED, realm=realm)
 
             req.user = req.authorization['username']
-            return fun(req)
+            return fun(req, *args, **kwargs)
         return handler
     return wrapper
 
